@@ -28,6 +28,8 @@ fn main() {
     let mut rng = Rng::new(seed);
     let mut out: Vec<Violation> = Vec::new();
     let (mut cases, mut entries, mut skipped_degenerate, mut skipped_nonsmooth, mut aliased) = (0usize, 0usize, 0usize, 0usize, 0usize);
+    let mut undeclared_vars = 0usize;
+    let mut special_configs = 0usize;
     let mut per_shape_checked = std::collections::BTreeMap::new();
     for shape in SHAPES {
         let (ni, np) = shape_arity(shape);
@@ -47,7 +49,16 @@ fn main() {
                 p
             };
             let n = ni + 1;
-            let x: Vec<f64> = (0..n).map(|_| scale * rng.sym()).collect();
+            let mut x: Vec<f64> = (0..n).map(|_| scale * rng.sym()).collect();
+            // one case in four has exactly equal coordinates somewhere (axis-aligned lines, points on a
+            // common vertical / horizontal, a coordinate equal to 0): the commonest real configurations
+            if rng.chance(1, 4) {
+                for _ in 0..rng.range(1, 2) {
+                    let (a, b) = (rng.below(n), rng.below(n));
+                    if rng.chance(1, 4) { x[a] = 0.0; } else { x[a] = x[b]; }
+                }
+                special_configs += 1;
+            }
             let params: Vec<f64> = (0..np).map(|_| param(&mut rng, shape, scale)).collect();
             let c = build(shape, &ids, &params);
             let (res, rdeg) = vh::residual(&c, &x);
@@ -92,9 +103,10 @@ fn main() {
                         });
                     }
                 }
-                let mut vars: Vec<u32> = nz[row].clone();
-                vars.sort();
-                vars.dedup();
+                // every variable of the configuration is differenced, not only those the row declares:
+                // an error measure that depends on a variable missing from the declared pattern (and from
+                // the derivative rows) must show up as a non-zero rate of change with no Jacobian entry
+                let vars: Vec<u32> = (0..n as u32).collect();
                 let rownorm = rows[row].iter().fold(0.0f64, |a, e| a.max(e.1.abs())).max(1e-300);
                 for v in vars {
                     let jac: f64 = rows[row].iter().filter(|e| e.0 == v).map(|e| e.1).sum();
@@ -113,6 +125,19 @@ fn main() {
                     }
                     case_entries += 1;
                     let tol = 1e-6 * rownorm.max(fd.abs()) + 1e-9 + 10.0 * fd_err;
+                    if !nz[row].contains(&v) {
+                        undeclared_vars += 1;
+                        if fd.abs() > tol {
+                            out.push(Violation {
+                                property: "C13",
+                                what: format!("{shape} row {row}: the error measure changes with variable {v} at rate {fd:.6e}, but the row does not declare that variable"),
+                                signature: format!("depends-on-undeclared-variable:{shape}:row{row}"),
+                                system: Some(System::default_cfg(vec![ConstraintRequest::highest_priority(c)], x.iter().enumerate().map(|(i, v)| (i as u32, *v)).collect(), "c13")),
+                                extra: format!("ids {:?} aliased {}", ids, alias),
+                            });
+                        }
+                        continue;
+                    }
                     if (jac - fd).abs() > tol {
                         out.push(Violation {
                             property: "C13",
@@ -146,7 +171,7 @@ fn main() {
         }
     }
     println!(
-        "STATS {{\"systems\": {cases}, \"jacobian_entries_checked\": {entries}, \"aliased_cases\": {aliased}, \"skipped_degenerate\": {skipped_degenerate}, \"skipped_nonsmooth\": {skipped_nonsmooth}, \"per_shape\": {:?}, \"violations\": {}}}",
+        "STATS {{\"systems\": {cases}, \"jacobian_entries_checked\": {entries}, \"aliased_cases\": {aliased}, \"undeclared_variable_rates_checked\": {undeclared_vars}, \"configurations_with_equal_coordinates\": {special_configs}, \"skipped_degenerate\": {skipped_degenerate}, \"skipped_nonsmooth\": {skipped_nonsmooth}, \"per_shape\": {:?}, \"violations\": {}}}",
         per_shape_checked,
         out.len()
     );
